@@ -144,10 +144,14 @@ Proof.
   intros IJ Hp Hc Hd Hl Hk Hz. pose proof IJ as [I J]. unfold acquire_x.
   assert (Hne : ~ engaged (locks s l) c).
   { eapply LP_idle_not_engaged; [apply (I_lp _ _ I)|]. now rewrite Hp. }
-  assert (Hentry : Inv cf (set_phase s c (CEntryCk k))).
-  { split.
-    - apply inv1_phase_noref; [exact I|exact Hc|now rewrite Hp|reflexivity|discriminate|discriminate].
-    - apply inv2_phase; [exact J| |apply (I_nodup _ _ I)]. intros; congruence. }
+  assert (Hentry : Inv cf (set_phase (set_fl s (fl_or_uncounted (fl s) (uncounted_at k (dict s)))) c (CEntryCk k))).
+  { assert (I' : Inv1 cf (set_fl s (fl_or_uncounted (fl s) (uncounted_at k (dict s)))))
+      by (apply inv1_fl; [exact I| | |]; sm; auto).
+    assert (J' : Inv2 cf (set_fl s (fl_or_uncounted (fl s) (uncounted_at k (dict s))))).
+    { apply inv2_fl; [exact J| | | | |]; sm; auto. intros H. apply orb_false_elim in H. tauto. }
+    split.
+    - apply inv1_phase_noref; [exact I'|exact Hc|sm; now rewrite Hp|reflexivity|discriminate|discriminate].
+    - apply inv2_phase; [exact J'| |sm; apply (I_nodup _ _ I)]. sm. intros; congruence. }
   destruct (Lock.owner (locks s l)) as [ow|] eqn:Eo; destruct (Lock.waiters (locks s l)) as [|w ws] eqn:Ew;
     try (cbn [fst snd]; split; [exact Hentry|apply good_plain; discriminate]).
   all: rewrite lock_do_eq; sm;
@@ -320,10 +324,15 @@ Proof.
            { split; [|apply inv2_set_lock, J].
              apply (inv1_lock_only cf s c k l t0 g (Lock.Resume c) I Hp eq_refl). right. exact Hh. }
            apply (body_ok cf s1 c k l t0 g I1); [exact Hp|]. unfold s1. sm. rewrite upd_same. exact Hh.
-        -- cbn [fst snd]. split; [|apply good_plain; discriminate]. split.
-           ++ apply (inv1_out cf s c k l (Lock.Resume c) I); [now rewrite Hp|reflexivity|exact Hne].
-           ++ apply inv2_phase; [apply inv2_set_lock, J| |sm; apply (I_nodup _ _ I)].
-              sm. intros; congruence.
+        -- cbn [fst snd]. split; [|apply good_plain; discriminate].
+           set (f := fl_or_uncounted _ _).
+           assert (I1 : Inv1 cf (set_phase (set_lock s l (fst (Lock.step (locks s l) (Lock.Resume c)))) c CIdle))
+             by (apply (inv1_out cf s c k l (Lock.Resume c) I); [now rewrite Hp|reflexivity|exact Hne]).
+           assert (J1 : Inv2 cf (set_phase (set_lock s l (fst (Lock.step (locks s l) (Lock.Resume c)))) c CIdle)).
+           { apply inv2_phase; [apply inv2_set_lock, J| |sm; apply (I_nodup _ _ I)]. sm. intros; congruence. }
+           split.
+           ++ refine (inv1_fl cf _ f I1 _ _ _); unfold f; sm; auto.
+           ++ refine (inv2_fl cf _ f J1 _ _ _ _ _); unfold f; sm; auto. intros H. apply orb_false_elim in H. tauto.
         -- rejected IJ.
     + (* inside the wrapped function *)
       pose proof (L_run _ _ _ _ _ (I_lp _ _ I) _ _ _ _ _ _ Hp) as Hh.
